@@ -81,8 +81,9 @@ class C07(Prop):
                 obs["json_equal"] = f"{type(e).__name__}: {e}"[:200]
             if case.get("unknown", None) is not None or case.get("unknown") == "":
                 it = CountingRows(rows_py)
+                flt = [None, (lambda bt, name: True), (lambda bt, name: False), (lambda bt, name: bt.name != "TABLE")][len(rows_py) % 4]
                 try:
-                    list(parse_blocks(it, to=case["unknown"]))
+                    list(parse_blocks(it, to=case["unknown"], filter=flt))
                     obs["unknown"] = ["accepted", it.consumed]
                 except ValueError:
                     obs["unknown"] = ["ValueError", it.consumed]
